@@ -612,7 +612,7 @@ func init() {
 		Technique: "explicit-state BFS over (private container state, reference dictionary) pairs driven through the real methods, plus exhaustive operation sequences up to a depth bound",
 		Rule: "operations Set/Update/Delete(present and absent)/Filter(6 predicates)/Map on keys {a,b,c} x values {1,2} for RuleASTNodes, ASTNodes, Constraints; Add and NewStringSet(every argument list of <=3 keys) for StringSet; after every step Len/Has/Get/GetValue/Each/EachSafe/Find/MarshalJSON are compared with an insertion-ordered dictionary; " +
 			"states = distinct (impl dump, reference) pairs, non-trivial = histories of length >= 2",
-		Shards: func(string) int { return 4 },
+		Shards: func(string) int { return 16 },
 		Bounds: func(tier string) map[string]any { return map[string]any{"sequence_depth": c19Depth(tier), "keys": 3, "values": 2} },
 		Run:    c19Run,
 		Replay: func(w *core.W, v *core.Violation) {
@@ -636,7 +636,9 @@ func init() {
 func c19Run(w *core.W) {
 	conts := c19Containers()
 	ct := conts[w.Shard%len(conts)]
-	if w.Shard >= len(conts) {
+	sub, nsub := w.Shard/len(conts), 4
+	if sub > 0 {
+		c19Sequences(w, ct, sub, nsub)
 		return
 	}
 	alpha := c19Alphabet(ct)
@@ -710,7 +712,13 @@ func c19Run(w *core.W) {
 	w.S.States += int64(len(seen))
 	w.Count(ct.name+".bfs_states", int64(len(seen)))
 	w.Count(ct.name+".bfs_depth_to_closure", int64(depth))
-	// (2) every sequence up to the depth bound, no de-duplication (cross-check of the state abstraction)
+	c19Sequences(w, ct, sub, nsub)
+}
+
+// c19Sequences: every sequence up to the depth bound, no de-duplication
+// (cross-check of the state abstraction); first operations are dealt to sub-shards.
+func c19Sequences(w *core.W, ct *c19Cont, sub, nsub int) {
+	alpha := c19Alphabet(ct)
 	D := c19Depth(w.Tier)
 	var rec func(ops []c19Op)
 	var nseq int64
@@ -726,7 +734,10 @@ func c19Run(w *core.W) {
 		if len(ops) == D || w.OverBudget() {
 			return
 		}
-		for _, op := range alpha {
+		for i, op := range alpha {
+			if len(ops) == 0 && i%nsub != sub {
+				continue
+			}
 			rec(append(ops, op))
 		}
 	}
